@@ -514,7 +514,7 @@ fn main() {
         cases.push(&format!("unit/{}", ucls.join("|")), &model_line("u", &case), &u, &case.tags.join(","));
     }
     // 3. random API-level cases: without flushes (type mixing allowed) and with flushes
-    let n_api = if thorough { 3000 } else { 450 };
+    let n_api = if thorough { 2000 } else { 330 };
     for k in 0..n_api {
         let flushes = k % 3 == 2;
         let case = gen_case(&mut rng, flushes);
@@ -525,7 +525,7 @@ fn main() {
             &model_line("q", &case), &out, &format!("{} {}", kinds.into_iter().collect::<Vec<_>>().join("+"), detail));
     }
     // 4. CSV
-    let n_csv = if thorough { 600 } else { 80 };
+    let n_csv = if thorough { 400 } else { 60 };
     let dir = tempfile::tempdir().unwrap();
     for k in 0..n_csv {
         let (ncols, n, allow, cols, psize) = gen_csv(&mut rng);
